@@ -45,7 +45,7 @@ def main():
         res["suite_line"] = outb.strip().splitlines()[:3]
         res["checks"] = {}
         for pr in props:
-            envc = dict(os.environ, VERIF_REPO=wt, PYTHONHASHSEED="0", VERIF_REPLAY_OUT=os.path.join(wt, "replays_out"), PYTHONDONTWRITEBYTECODE="1")
+            envc = dict(os.environ, VERIF_REPO=wt, PYTHONHASHSEED="0", VERIF_REPLAY_OUT=os.path.join(wt, "replays_out"), VERIF_EVIDENCE_OUT=os.path.join(wt, "evidence_out"), PYTHONDONTWRITEBYTECODE="1")
             rcc, outc = sh(["/venv/bin/python", "-m", "vp.run", pr, "--tier", tier], cwd=VERIF, env=envc)
             keys = [l.strip()[:200] for l in outc.splitlines() if l.strip().startswith("key=")]
             res["checks"][pr] = {"tier": tier, "exit": rcc, "status": {0: "SURVIVED", 1: "KILLED", 2: "HARNESS-ERROR"}.get(rcc, str(rcc)), "keys": keys[:4]}
@@ -73,7 +73,7 @@ def main():
             old_det = old.get("detected_by", {})
             old_det.update(res["checks"])
             meta["detected_by"] = old_det
-            for k in ("needs_to_manifest", "history", "breaks", "first_verdict"):
+            for k in ("needs_to_manifest", "history", "breaks", "first_verdict", "round", "retired"):
                 if k in old and (k not in meta or meta[k] == "see notes.md"):
                     meta[k] = old[k]
         json.dump(meta, open(meta_path, "w"), indent=1)
